@@ -96,9 +96,11 @@ def _harness_defined_points(c):
     return out
 
 
-def expr_text(tokens, is_bool) -> str:
-    s = " ".join(tokens)
-    return f"Conditional({s}, 1, 0)" if is_bool else s
+def expr_text(tokens, is_bool, compact=False) -> str:
+    """compact: the same tokens written without any blank between them (`-2**2`, `x*-y`); the lexer must find the
+    same tokens (no two operands are ever adjacent in an accepted token sequence)."""
+    s = ("" if compact else " ").join(tokens)
+    return (f"Conditional({s},1,0)" if compact else f"Conditional({s}, 1, 0)") if is_bool else s
 
 
 def build_model(entries) -> str:
@@ -287,12 +289,13 @@ def replay(cases, envs, backend: str = "numpy", nproc: int = 16, batch: int = 12
             continue
         seen = set()
         for st in styles:
-            toks = c[st]
-            key = tuple(toks)
+            compact = st.endswith("-compact")
+            toks = c[st.replace("-compact", "")]
+            key = (tuple(toks), compact)
             if key in seen:
                 continue
             seen.add(key)
-            entries.append((ci, st, expr_text(toks, c["bool"])))
+            entries.append((ci, st, expr_text(toks, c["bool"], compact)))
     batches = [entries[i:i + batch] for i in range(0, len(entries), batch)]
     jobs = [(b, envs, backend, workdir) for b in batches]
     stats = {"cases": len(cases), "entries": len(entries), "skipped_all_undefined": skipped_undefined,
